@@ -596,3 +596,60 @@ Proof.
   destruct (Hfind lo Hlo) as (d1 & H1). destruct (Hfind hi Hhi) as (d2 & H2).
   exists lo, d1, hi, d2. auto.
 Qed.
+
+(* the consensus max-finalized timestamp (C09's bootstrap) and the v4 market status are values that some correct node's
+   data source returned, when at most f senders are faulty *)
+Lemma received1_tag ver base s p t : received1 ver base s = Some (p, t) -> t = is_correct s.
+Proof.
+  unfold received1. destruct (sent ver base s) as [b|]; [|discriminate]. destruct (merc_decode234 ver b) as [m|]; [|discriminate].
+  destruct (parse234 ver m); [|discriminate]. intros H; inversion H; reflexivity.
+Qed.
+Lemma received_faulty_le ver base ss :
+  (length (filter (fun p : pao * bool => negb (snd p)) (received ver base ss)) <= length (filter (fun s => negb (is_correct s)) ss))%nat.
+Proof.
+  unfold received. induction ss as [|s ss IH]; [cbn; lia|]. cbn [MercuryReport.omap filter].
+  destruct (received1 ver base s) as [[p t]|] eqn:E.
+  - rewrite (received1_tag _ _ _ _ _ E). cbn [filter snd]. destruct (negb (is_correct s)); cbn [length]; lia.
+  - destruct (negb (is_correct s)); cbn [length]; lia.
+Qed.
+
+Lemma faulty_count_map_tag {A B} (g : A -> B) (l : list (A * bool)) :
+  length (filter (fun p : B * bool => negb (snd p)) (map (fun pt => (g (fst pt), snd pt)) l)) =
+  length (filter (fun p : A * bool => negb (snd p)) l).
+Proof. induction l as [|[a t] l IH]; [reflexivity|]. cbn [map filter fst snd]. destruct t; cbn [negb length]; lia. Qed.
+
+Theorem consensus_max_finalized_from_a_correct_data_source ver base ss ks f v :
+  ver = 2 \/ ver = 3 \/ ver = 4 -> senders_ok ss ->
+  (length (filter (fun s => negb (is_correct s)) ss) <= f)%nat ->
+  let txs := map (fun pt => (p_mfts (fst pt), snd pt)) (received ver base ss) in
+  max_finalized_ts_order ks (map fst txs) f = Ok v ->
+  exists n d, In (Correct n d) ss /\ ds_mfts d = Some v.
+Proof.
+  intros Hv Hok Hf txs Hc.
+  pose proof (max_finalized_ts_reported_by_f_plus_1 ks (map fst txs) f v Hc) as Hcnt.
+  assert (Hfl : (length (filter (fun p : field * bool => negb (snd p)) txs) <= f)%nat).
+  { subst txs. rewrite (faulty_count_map_tag p_mfts). etransitivity; [apply (received_faulty_le ver base ss)|exact Hf]. }
+  pose proof (f_plus_1_votes_honest_witness txs f v Hfl Hcnt) as Hin.
+  subst txs. apply in_map_iff in Hin. destruct Hin as ([p t] & Hpt & Hin). cbn [fst snd] in Hpt. inversion Hpt; subst t.
+  destruct (received_correct ver base ss p Hv Hok Hin) as (n & d & Hs & ->).
+  exists n, d. split; [exact Hs|]. cbn [expected_pao p_mfts] in H0. inversion H0.
+  destruct (ds_mfts d) as [x|]; cbn [opt_or is_some] in *; [reflexivity|discriminate].
+Qed.
+
+Theorem consensus_market_status_from_a_correct_data_source base ss ks f v :
+  senders_ok ss ->
+  (length (filter (fun s => negb (is_correct s)) ss) <= f)%nat ->
+  let txs := map (fun pt => (p_status (fst pt), snd pt)) (received 4 base ss) in
+  market_status_order ks (map fst txs) f = Ok v ->
+  exists n d, In (Correct n d) ss /\ ds_status d = Some v.
+Proof.
+  intros Hok Hf txs Hc.
+  pose proof (market_status_reported_by_f_plus_1 ks (map fst txs) f v Hc) as Hcnt.
+  assert (Hfl : (length (filter (fun p : field * bool => negb (snd p)) txs) <= f)%nat).
+  { subst txs. rewrite (faulty_count_map_tag p_status). etransitivity; [apply (received_faulty_le 4 base ss)|exact Hf]. }
+  pose proof (f_plus_1_votes_honest_witness txs f v Hfl Hcnt) as Hin.
+  subst txs. apply in_map_iff in Hin. destruct Hin as ([p t] & Hpt & Hin). cbn [fst snd] in Hpt. inversion Hpt; subst t.
+  destruct (received_correct 4 base ss p (or_intror (or_intror eq_refl)) Hok Hin) as (n & d & Hs & ->).
+  exists n, d. split; [exact Hs|]. cbn [expected_pao p_status] in H0. change (4 =? 4) with true in H0. cbn [andb] in H0. inversion H0.
+  destruct (ds_status d) as [x|]; cbn [opt_or is_some] in *; [reflexivity|discriminate].
+Qed.
